@@ -36,6 +36,31 @@ CLAIMED = {
    technique="Lean 4 state-machine invariant proof over all syscall-result sequences + log-replay correspondence",
    design="§7 C17"),
 }
+L1_NOTE = ("Trusted: Lean kernel; axioms propext/Classical.choice/Quot.sound; the statement = the monitor Ivy/Mon/{id}.lean and the environment "
+           "contract envOk (valid API use, kernel contract K1, monotone normalised clock) in Ivy/L1/Exec.lean; the hand-written machine Ivy/L1/Machine.lean "
+           "tied to /repo by sampled log replay (vos-lite harness: real kernel objects, virtual time, wrapped syscalls); gcc+ASan/UBSan.")
+L1_TEXTS = {
+ "C04": ("never-early / exactly-once / no-oversleep for timers", "Mon.C04: a timer callback only for a registered timer (consuming it), only when the loop clock is at or past its "
+         "expiry; at every kernel wait no registered timer's expiry lies before the requested timeout (ns exact, ms rounded up, 24h cap) or the kernel timer is armed at or before it"),
+ "C06": ("task exactly-once / no blocking wait with a task pending / no task twice per round", "Mon.C06"),
+ "C03": ("descriptor callbacks only for registered descriptors, set handlers and kernel-reported bands, once per iteration", "Mon.C03"),
+ "C02": ("kernel interest = handlers at every wait; every reported band whose handler stays set is dispatched", "Mon.C02 (rule (c), lost readiness against ground truth, is an implementation-side oracle)"),
+ "C07": ("iv_main returns iff quit or nothing registered; no blocking wait with nothing registered; callbacks one at a time inside iv_main", "Mon.C07 (the spin oracle runs on implementation logs only)"),
+ "C01": ("no callback after unregister returned, one-shot objects unregistered at entry, no access to freed object memory", "Mon.C01 (+ AddressSanitizer with free-on-unregister scenarios on the implementation)"),
+}
+for _id, (_what, _mon) in L1_TEXTS.items():
+    if os.path.exists(os.path.join(HERE, "lean", "Ivy", "L1", f"Proofs{_id}.lean")):
+        CLAIMED[_id] = dict(
+            text=f"Lean 4 theorem Ivy.Props.{_id}.monitor_accepts: for every poll method, every configuration of optional kernel facilities, every user program "
+                 f"(any API calls from set-up code and from any handler), every kernel answer allowed by the contract (wait results, EINTR, ENOSYS fallbacks, clock "
+                 f"values, foreign-thread posts) the trace of the L1 loop machine is accepted by the monitor stating: {_what} [{_mon}]. The machine mirrors iv_main, "
+                 f"iv_fd*, iv_task, the timer heap, iv_event/raw at basic-block granularity; it is tied to the current /repo on every run by replaying logs of the real "
+                 f"library (families targeted at this property, all four methods, injected faults) — every library record must be predicted — and the same monitor is "
+                 f"evaluated on the implementation's own records to produce concrete failing scenarios.",
+            note=L1_NOTE.format(id=_id),
+            technique="Lean 4 simulation proof (monitor state vs machine state, induction over traces) + log-replay correspondence",
+            design=f"§7 {_id}")
+
 NOT_YET = "check not built yet in this round; planned per DESIGN.md §7 (Lean model + theorems + correspondence)"
 
 checks = []
